@@ -176,6 +176,16 @@ CHECKS["C19"] = dict(
     design="DESIGN.md section 3 / C19",
 )
 
+CHECKS["C20"] = dict(
+    technique="verify-before-return guard analysis on the syntax tree of affine_between/_round (every non-None return directly under a successful check on the same variables), structural checks of the verification chain, symbolic interpretation of _affine_callback per command letter against the affine image",
+    text="Soundness of the heuristic search reduces to a guard property over all returns: nothing but None, the verified identity or a verified-then-"
+         "reverified rounded candidate can be returned, the verification compares the image of s1 with s2 exhaustively under the tolerance, the "
+         "translation is tried before any bail-out, and the image computed by _affine_callback is the affine image for every coordinate pair of "
+         "every command letter. For arcs the image also needs rotation/sweep updates which the callback never performs (known findings F9a, F9b).",
+    note="Not applicable: completeness of the search. Known findings F9a/F9b in known_findings.json.",
+    design="DESIGN.md section 3 / C20",
+)
+
 NOT_APPLICABLE = {}
 
 
